@@ -15,7 +15,7 @@ def cluster_key(formula, line):
     return "%s:%s" % (formula, e.get("ev"))
 
 
-def cluster_model(work, res, tier):
+def cluster_model(work, res, tier, prop=""):
     """design level: the 2-node Cluster model exhaustively (safety + liveness under fairness); 3 nodes by random walks"""
     r = vlib.model_check(work, "Cluster", "Cluster_2n.cfg", workers=max(2, vlib.NCPU // 2))
     res.add_model(r)
@@ -28,12 +28,19 @@ def cluster_model(work, res, tier):
             raise Infra("Cluster_3n_sim failed:\n" + "\n".join(out.splitlines()[-25:]))
         res.cov["models"].append({"module": "Cluster", "cfg": "Cluster_3n_sim.cfg", "mode": "simulate num=20000 depth=80",
                                   "wall_s": round(wall, 1)})
+        if prop == "C03":
+            # three nodes exhaustively under the smallest bounds (one fault action, one message in flight, one transmission per
+            # broadcast): third-party confirmations, hearsay about a third member, a departure relayed by push/pull.
+            # Measured: 11 152 695 distinct states, 150 600 285 generated, 30 min with 6 workers on a busy machine.
+            r3 = vlib.model_check(work, "Cluster", "Cluster_3n_small.cfg", timeout=5400, workers=vlib.NCPU)
+            res.add_model(r3)
+            log("model Cluster_3n_small.cfg: %d states, %d transitions (safety, exhaustive, 3 nodes)" % (r3["states"], r3["transitions"]))
 
 
 def sim_stage(work, res, prop, tier, prefixes, count, replay=None, model=True, maxn=None):
     binp = vlib.build_harness(work)
     if model and not replay:
-        cluster_model(work, res, tier)
+        cluster_model(work, res, tier, prop)
     d = work.sub("sim")
     plans = os.path.join(d, "plans.ndjson")
     if replay:
